@@ -334,6 +334,12 @@ func runC15CaseR(c *fw.Ctx, id string, rq c15Req) (ran bool, rerrOut error) {
 				env.w.Lock()
 				env.w.Faults[simnet.FaultKey{Handle: e.handle.Idx, Op: "read", K: 1}] = simnet.Fault{Err: fmt.Errorf("recvfrom (flow %d): %w", k, errors.Join(s, os.NewSyscallError("recvfrom", syscall.ENETDOWN))), Persist: true}
 				env.w.Unlock()
+			case k%3 == 0 && k%2 == 1 && e.handle != nil && rq.slowDest == 0 && rq.proto != "tcp":
+				// (parallel engines only: they listen for their whole window; a serial SYN run is over once its target answered)
+				// a participant whose handle breaks 300 ms into its run: whatever it had collected by then (its destination
+				// has answered long before when it is reachable) it is still listening, and it has failed
+				h, err := e.handle, fmt.Errorf("handle of flow %d (late): %w", k, s)
+				time.AfterFunc(300*time.Millisecond, func() { env.w.PoisonHandle(h, err) })
 			case sameText:
 				env.w.PoisonHandle(e.handle, fmt.Errorf("sendto: %w", s))
 			default:
